@@ -480,6 +480,7 @@ func (p *Peer) addConnection(c *Connection, direction connectionDirection) error
 	if c.readState() != connectionActive {
 		return ErrInvalidConnectionState
 	}
+	verifPoint("peer.addConnection.afterCheck", c.connID)
 
 	p.Lock()
 	*conns = append(*conns, c)
